@@ -25,7 +25,7 @@ F_INTEGRATE = 'torchsde._core.base_solver.BaseSDESolver.integrate'
 def job_controller(E, rep, tier):
     rep.under_contract('torchsde._core.adaptive_stepping.update_step_size')
     E.hooks['pow'] = CI.pow_hook
-    rep.take(verify(E, CI.UpdateStepSizeBody(), label='C14/update_step_size')['obligations'])
+    rep.take(verify(E, CI.UpdateStepSizeBody('property'), label='C14/update_step_size')['obligations'])
 
 
 def job_compute_error(E, rep, tier):
@@ -42,12 +42,37 @@ def job_integrate(E, rep, tier):
     E.contracts[CI.ComputeErrorContract.qualname] = CI.ComputeErrorContract()
     E.contracts[CI.UpdateStepSizeContract.qualname] = CI.UpdateStepSizeContract()
     E.externs['torch'].attrs['stack'] = I.ExternFunc('torch.stack', CI.stack_model, needs_cx=True)
+    # the modular proof rests on the helper clauses of the call-site contract of update_step_size; they are checked here, against the body
+    E.hooks['pow'] = CI.pow_hook
+    helpers = verify(E, CI.UpdateStepSizeBody('helper'), label='C14/update_step_size[call-site contract]')['obligations']
+    failed = [o.name for o in helpers if o.status != 'discharged']
+    if failed:
+        # not demanded by the property: no verdict from it; the loop is decided with the controller inlined (job integrate-adaptive-inlined)
+        rep.notes.append('call-site contract of update_step_size is not met by the current controller (' + ', '.join(failed) + '): the modular '
+                         'proof of integrate() is not used; the property-level obligations are decided on the composition with the controller inlined')
+        return
+    rep.take(helpers)
     res = verify(E, CA.IntegrateAdaptive(), label='C14/integrate[adaptive]')
     rep.take(res['obligations'])
 
 
+def job_integrate_inlined(E, rep, tier):
+    """The same loop obligations with the real body of update_step_size executed in place of its contract (whole composition of
+    integrate + controller): decides the property-level obligations even for controllers that leave the helper clauses of the
+    call-site contract (accept-never-shrinks, bounded-factor), which the property does not demand."""
+    rep.under_contract(F_INTEGRATE, 'torchsde._core.adaptive_stepping.update_step_size')
+    E.contracts[CI.StepContract.qualname] = CI.StepContract()
+    E.contracts[CI.LinearInterpContract.qualname] = CI.LinearInterpContract()
+    E.contracts[CI.ComputeErrorContract.qualname] = CI.ComputeErrorContract()
+    E.hooks['pow'] = CI.pow_hook
+    E.externs['torch'].attrs['stack'] = I.ExternFunc('torch.stack', CI.stack_model, needs_cx=True)
+    res = verify(E, CA.IntegrateAdaptive(), label='C14/integrate[adaptive,controller-inlined]')
+    rep.take(res['obligations'])
+
+
 def jobs(tier):
-    return [Job('controller', job_controller), Job('compute_error', job_compute_error), Job('integrate-adaptive', job_integrate)]
+    return [Job('controller', job_controller), Job('compute_error', job_compute_error), Job('integrate-adaptive', job_integrate),
+            Job('integrate-adaptive-inlined', job_integrate_inlined)]
 
 
 def canaries(tier):
@@ -67,3 +92,8 @@ def canaries(tier):
          'patches': [(B, 'midpoint_y, midpoint_extra = self.step(curr_t, midpoint_t, curr_y, curr_extra)\n                    next_y, next_extra = self.step(midpoint_t, next_t, midpoint_y, midpoint_extra)',
                       'midpoint_y, curr_extra = self.step(curr_t, midpoint_t, curr_y, curr_extra)\n                    next_y, next_extra = self.step(midpoint_t, next_t, midpoint_y, curr_extra)')]},
     ]
+
+
+def native_replay(ob):
+    from props.base import run_native
+    return run_native('c14')
